@@ -33,6 +33,12 @@ type IntervalAwareForceTicker struct {
 
 	wg   sync.WaitGroup
 	quit chan struct{}
+
+	// resetMtx serialises ResetWithInterval and Stop, which tear down and
+	// recreate the internal clock ticker, its quit channel and the
+	// forwarding goroutine. The ticker is reset from more than one
+	// goroutine (the connection's send and receive loops).
+	resetMtx sync.Mutex
 }
 
 // A compile-time constraint to ensure IntervalAwareForceTicker satisfies the
@@ -130,6 +136,10 @@ func (t *IntervalAwareForceTicker) Pause() {
 // NOTE: Part of the Ticker interface.
 func (t *IntervalAwareForceTicker) Stop() {
 	t.Pause()
+
+	t.resetMtx.Lock()
+	defer t.resetMtx.Unlock()
+
 	t.ticker.Stop()
 	close(t.quit)
 	t.wg.Wait()
@@ -138,6 +148,9 @@ func (t *IntervalAwareForceTicker) Stop() {
 // ResetWithInterval restarts the ticker with the given interval, causing the
 // next clock tick to occur in the given interval.
 func (t *IntervalAwareForceTicker) ResetWithInterval(newInterval time.Duration) {
+	t.resetMtx.Lock()
+	defer t.resetMtx.Unlock()
+
 	// Shutdown the internal clock ticker without changing isActive.
 	t.ticker.Stop()
 	close(t.quit)
